@@ -296,8 +296,15 @@ def f2_concatenations(ctx: Ctx) -> None:
                 guard_ok = all(_under_dtype_equal_guard(top, x) for x in guarded)
                 prior_cast = any(isinstance(s, ast.If) and '.dtype != self._row_dtype' in norm(s.test) and any('.astype(self._row_dtype)' in norm(b) for b in s.body)
                                  for s in ast.walk(top.node))
-                if appends and (cast or prior_cast) and (guard_ok or prior_cast):
-                    ctx.ok(R, f, c, f'{len(appends)} operand append(s): cast to self._row_dtype unless already of that dtype', key=key)
+                # the same list written as a comprehension, its elements then cast in place: `for i, b in enumerate(L): if b.dtype != D: L[i] = b.astype(D)`
+                comp_def = [a for a in _defs(top, arg.id) if isinstance(a.value, ast.ListComp)]
+                in_place = any(isinstance(lp, ast.For) and isinstance(lp.iter, ast.Call) and call_name(lp.iter) == 'enumerate' and lp.iter.args and norm(lp.iter.args[0]) == arg.id
+                               and any(isinstance(s, ast.If) and '.dtype != self._row_dtype' in norm(s.test) and any(
+                                   isinstance(b, ast.Assign) and isinstance(b.targets[0], ast.Subscript) and norm(b.targets[0].value) == arg.id
+                                   and '.astype(self._row_dtype)' in norm(b.value) for b in s.body) for s in lp.body)
+                               for lp in ast.walk(top.node))
+                if (appends and (cast or prior_cast) and (guard_ok or prior_cast)) or (comp_def and not appends and in_place):
+                    ctx.ok(R, f, c, f'{len(appends) or len(comp_def)} operand source(s): cast to self._row_dtype unless already of that dtype', key=key)
                 else:
                     ctx.bad(R, f, c, f'operands of np.concatenate({arg.id}) are not brought to one resolved dtype first', key=key)
                 continue
